@@ -1229,9 +1229,9 @@ class ApplyInductHyp(Rule):
 
 
 def is_monotonic_on(dfx: Expr, var: str, lower: Expr, upper: Expr) -> bool:
-    """Return False if the derivative dfx (in variable var) takes both signs at
-    sample points strictly between lower and upper. Returns True when no change
-    of sign is found or the expressions cannot be evaluated.
+    """Return False if the derivative dfx (in variable var) takes both signs, or
+    is undefined, at sample points strictly between lower and upper. Returns True
+    when neither is found or the expressions cannot be evaluated.
 
     """
     if not (lower.is_evaluable() and upper.is_evaluable()):
@@ -1254,7 +1254,10 @@ def is_monotonic_on(dfx: Expr, var: str, lower: Expr, upper: Expr) -> bool:
     for pt in pts:
         try:
             val = expr.eval_expr(dfx.subst(var, Const(Fraction(pt).limit_denominator(10 ** 6))))
-        except (ZeroDivisionError, ValueError, OverflowError, TypeError, NotImplementedError, AssertionError):
+        except (ZeroDivisionError, ValueError):
+            # The derivative is not defined at a point inside the interval
+            return False
+        except (OverflowError, TypeError, NotImplementedError, AssertionError):
             continue
         if isinstance(val, complex):
             continue
